@@ -312,6 +312,10 @@ func VerifC19_names() {
 				wantOut, _ := vfTextWith(decoration.UTF8BoxHeavy())
 				vfAssert(vfAnd(err == nil, out == wantOut), "plain-texttable-selects-default-decoration")
 			}
+			if tail == "." {
+				// "texttable." names the decoration registered under the empty name: there is none
+				vfAssert(vfAnd(err != nil, out == ""), "unknown-name-fails-to-render")
+			}
 			return
 		}
 		_ = prefixed
